@@ -10,6 +10,7 @@ import GoNeat.Driver.Depth
 import GoNeat.Driver.Genesis
 import GoNeat.Driver.Parallel
 import GoNeat.Driver.IO
+import GoNeat.Driver.Innov
 
 namespace GoNeat.Driver
 def allOps : List (String × Handler) :=
@@ -24,4 +25,5 @@ def allOps : List (String × Handler) :=
   ++ genesisOps
   ++ parallelOps
   ++ ioOps
+  ++ innovOps
 end GoNeat.Driver
